@@ -63,7 +63,7 @@ ATTRS = ["sample_rate", "start_time", "meta", "center_freq", "chan_bw", "freq_al
 
 def same_attrs(a, b):
     """every public attribute equal (copies must reproduce the object)"""
-    if type(a) is not type(b) or a.shape != b.shape or a.dtype != b.dtype:
+    if type(a) is not type(b) or a.shape != b.shape or a.dtype.newbyteorder("=") != b.dtype.newbyteorder("="):
         return False
     for k in ATTRS:
         if hasattr(a, k) != hasattr(b, k):
